@@ -384,3 +384,19 @@ def run(repo, rep, tier):  # noqa: F811 -- round-6 remedies (core/round6.py)
 _ADDR6C = ' R11.13: the Optional branch of the registries selects the member with not_none_type_arg, not by position. Borrowed: R16.7.'
 EXPLANATION += _ADDR6C
 LEVEL_TEXT += _ADDR6C
+
+
+_run_before_r6c = run
+
+
+def run(repo, rep, tier):  # noqa: F811 -- round-6 remedies, batch 3
+    _run_before_r6c(repo, rep, tier)
+    if getattr(rep, "borrowed", False):
+        return
+    from ..core import round6 as _r6c
+    _r6c.identity_guards(repo, rep, "R11.14", "R20.12", "R20.13", only={"R11.14"})
+
+
+_ADDR6D = ' R11.14: the union unpacker reuses the method under construction only when `spec.owner is spec.type`.'
+EXPLANATION += _ADDR6D
+LEVEL_TEXT += _ADDR6D
